@@ -47,6 +47,8 @@ def run(ctx, tier):
     for name in cfgs:
         ctx.set_config(name)
         check(ctx, fxs[name])
+        from rules import c14_literals
+        c14_literals.check(ctx, fxs[name], "M8")
 
 
 def check_default_results(ctx, fx):
